@@ -502,6 +502,189 @@ func (v *V) Clone() *V {
 	return &c
 }
 
+// ---------------------------------------------------------------- mutation histories
+
+// bucket-0 keys of the backing tables (initial capacity 101, first grown capacity 203)
+var zeroStr []string // strings whose hash index is 0 modulo 101 and modulo 203
+
+func zeroIntKey(r *vh.Rng) int32 {
+	k := int32(r.Intn(40)) * 20503 // 0, 20503, … : index 0 modulo 101 and 203
+	if r.Chance(25) {
+		k |= math.MinInt32 // the hash masks the sign bit off
+	}
+	if r.Chance(20) {
+		k = int32(r.Intn(6)) * 101 // index 0 only before growth
+	}
+	return k
+}
+
+func junkValue(r *vh.Rng) value.Value {
+	switch r.Intn(4) {
+	case 0:
+		return value.NewNullValue()
+	case 1:
+		return value.NewDecimalValue(r.Range(-3, 3))
+	case 2:
+		return value.NewTextValue("junk")
+	}
+	return value.NewBoolValue(r.Bool())
+}
+
+// ToGoH builds the implementation value through a random *history* of the exported mutators
+// whose final state, by insertion-ordered dictionary / list semantics, is exactly v:
+//
+//	maps   rounds of (fill with junk — the target's own keys, bucket-0 keys, colliding keys, enough
+//	       keys to cross the growth threshold — then Clear()), then the target entries put in
+//	       order, some of them first with a placeholder value and overwritten afterwards
+//	       (an existing key keeps its place), PutString / PutLong / NewList where they apply,
+//	       and for MapValue a tail copied in with PutAll from a second map
+//	lists  junk Add + Clear() rounds, then Add / AddString / AddLong, some items placed with Set
+//
+// The children are built the same way.  Every choice derives from r.
+func (v *V) ToGoH(r *vh.Rng) value.Value {
+	switch v.K {
+	case "l":
+		l := value.NewListValue(nil)
+		for rounds := r.Intn(3); rounds > 0; rounds-- {
+			for i := r.Intn(6); i > 0; i-- {
+				l.Add(junkValue(r))
+			}
+			l.Clear()
+		}
+		var later []int
+		for i, c := range v.L {
+			switch {
+			case r.Chance(25):
+				l.Add(junkValue(r)) // placeholder, Set below
+				later = append(later, i)
+			case c.K == "T" && r.Chance(50):
+				l.AddString(string(c.Bs))
+			case c.K == "D" && r.Chance(50):
+				l.AddLong(c.I)
+			default:
+				l.Add(c.ToGoH(r))
+			}
+		}
+		for _, i := range later {
+			l.Set(i, v.L[i].ToGoH(r))
+		}
+		return l
+	case "m":
+		m := value.NewMapValue()
+		for rounds := r.Intn(3); rounds > 0; rounds-- {
+			n := r.Intn(8)
+			if r.Chance(15) {
+				n = 80 + r.Intn(10) // cross the growth threshold before the Clear
+			}
+			for i := 0; i < n; i++ {
+				var k string
+				switch {
+				case len(v.Ks) > 0 && r.Chance(45):
+					k = string(v.Ks[r.Intn(len(v.Ks))])
+				case len(zeroStr) > 0 && r.Chance(40):
+					k = zeroStr[r.Intn(len(zeroStr))]
+				case len(collStr) > 0 && r.Chance(30):
+					g := collStr[r.Intn(len(collStr))]
+					k = g[r.Intn(len(g))]
+				default:
+					k = "j" + strconv.Itoa(r.Intn(200))
+				}
+				m.Put(k, junkValue(r))
+			}
+			m.Clear()
+		}
+		split := len(v.L)
+		if len(v.L) > 1 && r.Chance(25) {
+			split = 1 + r.Intn(len(v.L)-1) // the tail arrives through PutAll
+		}
+		var later []int
+		put := func(dst *value.MapValue, i int) {
+			c, k := v.L[i], string(v.Ks[i])
+			switch {
+			case r.Chance(25):
+				dst.Put(k, junkValue(r))
+				later = append(later, i)
+			case c.K == "T" && r.Chance(50):
+				dst.PutString(k, string(c.Bs))
+			case c.K == "D" && r.Chance(50):
+				dst.PutLong(k, c.I)
+			case c.K == "l" && len(c.L) == 0 && r.Chance(50):
+				dst.NewList(k)
+			default:
+				dst.Put(k, c.ToGoH(r))
+			}
+		}
+		for i := 0; i < split; i++ {
+			put(m, i)
+		}
+		if split < len(v.L) {
+			other := value.NewMapValue()
+			if r.Chance(50) { // the source map has a history of its own
+				other.Put(string(v.Ks[split]), junkValue(r))
+				other.Clear()
+			}
+			for i := split; i < len(v.L); i++ {
+				put(other, i)
+			}
+			for _, i := range later { // settle placeholders before the copy
+				if i >= split {
+					other.Put(string(v.Ks[i]), v.L[i].ToGoH(r))
+				}
+			}
+			m.PutAll(other)
+		}
+		for _, i := range later {
+			if i < split {
+				m.Put(string(v.Ks[i]), v.L[i].ToGoH(r))
+			}
+		}
+		return m
+	case "im":
+		m := value.NewIntMapValue()
+		for rounds := r.Intn(3); rounds > 0; rounds-- {
+			n := r.Intn(8)
+			if r.Chance(15) {
+				n = 80 + r.Intn(10)
+			}
+			for i := 0; i < n; i++ {
+				var k int32
+				switch {
+				case len(v.IKs) > 0 && r.Chance(45):
+					k = v.IKs[r.Intn(len(v.IKs))]
+				case r.Chance(50):
+					k = zeroIntKey(r)
+				default:
+					k = int32(r.Range(-100, 300))
+				}
+				m.Put(k, junkValue(r))
+			}
+			m.Clear()
+		}
+		var later []int
+		for i, c := range v.L {
+			k := v.IKs[i]
+			switch {
+			case r.Chance(25):
+				m.Put(k, junkValue(r))
+				later = append(later, i)
+			case c.K == "T" && r.Chance(50):
+				m.PutString(k, string(c.Bs))
+			case c.K == "D" && r.Chance(50):
+				m.PutLong(k, c.I)
+			case c.K == "l" && len(c.L) == 0 && r.Chance(50):
+				m.NewList(k)
+			default:
+				m.Put(k, c.ToGoH(r))
+			}
+		}
+		for _, i := range later {
+			m.Put(v.IKs[i], v.L[i].ToGoH(r))
+		}
+		return m
+	}
+	return v.ToGo()
+}
+
 // ---------------------------------------------------------------- float helpers
 
 func IsNaN32(b uint64) bool { return b&0x7fffffff > 0x7f800000 }
@@ -819,6 +1002,7 @@ func init() {
 		k := key{h % 101, h % 203}
 		groups[k] = append(groups[k], s)
 	}
+	zeroStr = groups[key{0, 0}]
 	var keys []key
 	for k := range groups {
 		keys = append(keys, k)
@@ -849,6 +1033,9 @@ func CollidingGroups() (int, int) {
 	return len(collStr), len(collStr[0])
 }
 
+// ZeroBucketStrings reports how many strings with hash index 0 (mod 101 and 203) are known.
+func ZeroBucketStrings() int { return len(zeroStr) }
+
 func (g *Gen) StrKeys(n int) [][]byte {
 	r := g.R
 	seen := map[string]bool{}
@@ -863,6 +1050,8 @@ func (g *Gen) StrKeys(n int) [][]byte {
 		switch {
 		case mode == 0 && grp != nil && len(out) < len(grp): // colliding
 			k = []byte(grp[(len(out)+r.Intn(3))%len(grp)])
+		case mode == 1 && len(zeroStr) > 0 && r.Chance(40): // bucket 0 of the backing table
+			k = []byte(zeroStr[r.Intn(len(zeroStr))])
 		case mode == 1:
 			k = []byte("k" + strconv.Itoa(r.Intn(4*n+4)))
 		case mode == 2 && r.Chance(30):
@@ -886,6 +1075,14 @@ func (g *Gen) IntKeys(n int) []int32 {
 	base := int32(r.Intn(1000))
 	for tries := 0; len(out) < n && tries < 20*n+100; tries++ {
 		var k int32
+		if mode == 3 && r.Chance(50) { // bucket 0 of the backing table
+			k := zeroIntKey(r)
+			if !seen[k] {
+				seen[k] = true
+				out = append(out, k)
+			}
+			continue
+		}
 		switch mode {
 		case 0: // equal index modulo 101 and 203; the sign bit is masked off by the hash
 			k = base + int32(len(out)+r.Intn(2))*20503
